@@ -337,7 +337,7 @@ func runAgentLife(args []string) {
 	var baseG int
 	type asyncStart struct{ done chan error }
 	var pending []*asyncStart
-	var waits []chan string
+	var waits, early []chan string
 	classify := func(err error) string {
 		switch {
 		case err == nil:
@@ -358,7 +358,7 @@ func runAgentLife(args []string) {
 			node = &recNode{id: strings.Repeat("f", 128), kind: ethnode.Geth}
 			sp = &scriptPool{}
 			ag = &agent.Agent{EthNode: node, UpdateInterval: time.Duration(num(op, "interval")) * time.Second}
-			pending, waits = nil, nil
+			pending, waits, early = nil, nil, nil
 			time.Sleep(time.Millisecond)
 			baseG = runtime.NumGoroutine()
 			epoch = time.Now()
@@ -434,6 +434,38 @@ func runAgentLife(args []string) {
 				line["r"] = "blocked"
 				waits = append(waits, ch)
 			}
+		case "WaitEarly":
+			// Wait entered before anything ended: must block (and be released by the next end of a loop)
+			ch := make(chan string, 1)
+			go func() {
+				if err := ag.Wait(); err != nil {
+					ch <- "err"
+				} else {
+					ch <- "nil"
+				}
+			}()
+			// watched for exactly one second (the loop may end within it: then the caller is released, Collect tells with what)
+			time.Sleep(time.Second)
+			time.Sleep(time.Millisecond)
+			if len(ch) > 0 {
+				line["r"] = "released"
+			} else {
+				line["r"] = "blocked"
+			}
+			early = append(early, ch)
+		case "Collect":
+			rs := []string{}
+			var still []chan string
+			for _, ch := range early {
+				select {
+				case r := <-ch:
+					rs = append(rs, r)
+				default:
+					still = append(still, ch)
+				}
+			}
+			early = still
+			line["rs"] = rs
 		case "Force":
 			err := ag.UpdatePeers(context.Background(), sp)
 			line["r"] = classify(err)
